@@ -4,13 +4,14 @@
 #include "../obs.h"
 #include "../gen.h"
 #include "../dfa.h"
+#include "checks/corpus.h"
 
 namespace {
 struct Local { uint64_t names = 0, unix_rt = 0, win_drive = 0, win_unc = 0, win_rel = 0, not_judged = 0, short_forms = 0; };
 
 template <class C> struct Runner {
     typedef Api<C> A; OutBuf uri_buf, name_buf; FenceBuf in; Ctx *ctx; Local *lc;
-    Runner(Ctx *c, Local *l) : uri_buf(4), name_buf(4), in(4), ctx(c), lc(l) {}
+    Runner(Ctx *c, Local *l, size_t pages = 4) : uri_buf(pages), name_buf(pages), in(pages), ctx(c), lc(l) {}
     const C *place(const Str &s) { std::basic_string<C> z = widen<C>(s); z.push_back((C)0); return (const C *)in.put_end(z.data(), z.size() * sizeof(C)); }
     // converts a URI string back; the destination has exactly the documented size
     bool back(const Str &uri, bool to_unix, Str &out, Str &what) {
@@ -65,17 +66,26 @@ template <class C> struct Runner {
 void run(Ctx &ctx) {
     Local lc; Runner<char> ra(&ctx, &lc); Runner<wchar_t> rw(&ctx, &lc); SanWatch sw; int L = ctx.secondary ? 3 : ctx.quick() ? 5 : 6;
     all_strings(ctx, Str("aC:/\\ %#?.41\x01\xff", 14), L, [&](const Str &s) { if (ctx.expired()) return; lc.names++; for (int dir = 0; dir < 2; dir++) { ra.one(s, dir); rw.one(s, dir); } });
+    // every byte value in every kind of position (first character, after a separator, inside a UNC server name, after a drive prefix)
+    { uint64_t bi = 0; for (int c = 1; c < 256; c++) { if (!ctx.mine(bi++)) continue; Str x(1, (char)c);
+        for (auto &nm : { x, "a" + x, "/" + x + "/a", "/a" + x + "b", "C:\\" + x, "C:\\a" + x, "\\\\" + x + "\\a", "\\\\s" + x + "\\" + x, "a\\" + x + "b", x + x + x }) { lc.names++; for (int dir = 0; dir < 2; dir++) { ra.one(nm, dir); rw.one(nm, dir); } } } }
+    // stretch family: one unit repeated to lengths around the powers of two
+    { Runner<char> sa(&ctx, &lc, 1600); Runner<wchar_t> sb(&ctx, &lc, 1600); uint64_t si = 0; std::vector<int> SL = stretch_lengths(ctx.secondary ? 0 : ctx.quick() ? 1 : 2);
+      for (const char *u : { "a", " ", "/a", "\\a", "%", "\xc3\xa4", "a/", "a\\" }) for (const char *pre : { "", "/", "C:\\", "\\\\srv\\" }) for (int n : SL) {
+          if (!ctx.mine(si++) || ctx.expired()) continue; Str s = pre; for (int i = 0; i < n; i++) s += u; if (s.size() > 66000) continue; lc.names++; ctx.st.count("stretch_family");
+          for (int dir = 0; dir < 2; dir++) { sa.one(s, dir); sb.one(s, dir); } } }
     if (sw.tripped()) ctx.violation("", "a`0`A", "AddressSanitizer reported an invalid access");
     ctx.st.count("evaluations", lc.names * 4); ctx.st.count("names", lc.names); ctx.st.count("unix_roundtrips", lc.unix_rt); ctx.st.count("windows_drive_roundtrips", lc.win_drive); ctx.st.count("windows_unc_roundtrips", lc.win_unc);
     ctx.st.count("windows_relative_roundtrips", lc.win_rel); ctx.st.count("outside_domain_not_judged", lc.not_judged); ctx.st.count("short_forms", lc.short_forms);
     if (ctx.worker == 0) { ctx.st.count("L", L); ctx.st.sample("windows 'C:\\\\a %#' -> file:///C:/a%20%25%23"); ctx.st.sample("windows '\\\\\\\\a:b\\\\?' (UNC)"); ctx.st.sample("unix '/a:b/ .'"); }
 }
-void replay(Ctx &ctx, const Str &enc) { std::vector<Str> p = split(enc, '`'); if (p.size() != 3) return; Local lc; if (p[2] == "A") { Runner<char> r(&ctx, &lc); r.one(p[0], atoi(p[1].c_str())); } else { Runner<wchar_t> r(&ctx, &lc); r.one(p[0], atoi(p[1].c_str())); } }
+void replay(Ctx &ctx, const Str &enc) { size_t q2 = enc.rfind('`'); if (q2 == Str::npos || q2 == 0) return; size_t q1 = enc.rfind('`', q2 - 1); if (q1 == Str::npos) return;   // the name itself may hold a back-tick
+    std::vector<Str> p = { enc.substr(0, q1), enc.substr(q1 + 1, q2 - q1 - 1), enc.substr(q2 + 1) }; Local lc; if (p[2] == "A") { Runner<char> r(&ctx, &lc, 1600); r.one(p[0], atoi(p[1].c_str())); } else { Runner<wchar_t> r(&ctx, &lc, 1600); r.one(p[0], atoi(p[1].c_str())); } }
 Str coverage(const Ctx &, const Stats &st) {
     return jkv("evaluations", st.get("evaluations")) + ", " + jkv("distinct_nontrivial", st.get("unix_roundtrips") + st.get("windows_drive_roundtrips") + st.get("windows_unc_roundtrips") + st.get("windows_relative_roundtrips")) + ", " +
            jkvs("rule", "cases = (filename, direction, char type): all strings up to length L over {a, C, :, /, \\\\, space, %, #, ?, ., 4, 1, 0x01, 0xFF}; Unix direction judges every name; Windows direction judges backslash-only names that are drive-absolute (letter + ':'), UNC with non-empty server, or relative; other names are converted (must not overrun) but not judged. Output buffers have exactly the documented size (7/8+3n+1, 3n+1, len+1-5, len+1) and end at an inaccessible page. Oracle: round trip, spec-DFA validity of the URI string, documented form, short forms file:/x and file:c:/x. distinct_nontrivial = judged round trips completed, counted.") + ", " +
            jkv("names", st.get("names")) + ", " + jkv("max_len", st.get("L")) + ", " + jkv("unix_roundtrips", st.get("unix_roundtrips")) + ", " + jkv("windows_drive_roundtrips", st.get("windows_drive_roundtrips")) + ", " + jkv("windows_unc_roundtrips", st.get("windows_unc_roundtrips")) + ", " +
-           jkv("windows_relative_roundtrips", st.get("windows_relative_roundtrips")) + ", " + jkv("outside_domain_not_judged", st.get("outside_domain_not_judged")) + ", " + jkv("short_forms", st.get("short_forms")) + ", " + jsamples(st);
+           jkv("windows_relative_roundtrips", st.get("windows_relative_roundtrips")) + ", " + jkv("outside_domain_not_judged", st.get("outside_domain_not_judged")) + ", " + jkv("short_forms", st.get("short_forms")) + ", " + jkv("stretch_family_names", st.get("stretch_family")) + ", " + jsamples(st);
 }
 Check chk = { "C18", "exploration", run, replay, coverage, "Windows names containing '/', names with ':' as second character after a non-letter, and UNC names with an empty server are outside the statement's domain: converted under the memory fence but not judged" };
 REGISTER_CHECK(chk);
